@@ -30,6 +30,20 @@ Theorem C10_span_outside_only_newline :
     nth (length i) (parse_buf i) 0 = NL.
 Proof. exact span_outside_only_newline_l. Qed.
 
+(* FINDING (key span-eof-behind-appended-newline): the literal statement "the span lies inside the
+   input" does not hold — witness: input "m", end-of-input location (2,2) of the buffer "m\n". *)
+Theorem C10_span_inside_input_refuted :
+  exists i l, loc_in (parse_buf i) l /\ ends_with_nl i = false /\
+              span_of_loc l = (blen i + 1, 0) /\ ~ span_end (span_of_loc l) <= blen i.
+Proof. exact span_inside_input_refuted_l. Qed.
+
+(* … and it holds outside that class. *)
+Theorem C10_span_inside_input_outside_known_class :
+  forall i l, loc_in (parse_buf i) l ->
+    (ends_with_nl i = true \/ (l_start l <= blen i /\ l_end l <= blen i)) ->
+    span_end (span_of_loc l) <= blen i.
+Proof. exact span_inside_input_outside_known_class_l. Qed.
+
 (* The error location veryl reports (last unexpected token, else parol's error location). *)
 Theorem C10_error_location_in_buffer :
   forall buf us el, Forall (loc_in buf) us -> loc_in buf el ->
@@ -106,6 +120,8 @@ Proof. exact gen_family_example. Qed.
 Print Assumptions C10_span_in_buffer.
 Print Assumptions C10_span_in_input_partial.
 Print Assumptions C10_span_outside_only_newline.
+Print Assumptions C10_span_inside_input_refuted.
+Print Assumptions C10_span_inside_input_outside_known_class.
 Print Assumptions C10_error_location_in_buffer.
 Print Assumptions C10_depth_counter_exact.
 Print Assumptions C10_depth_reject_reports_cap_plus_one.
